@@ -43,6 +43,10 @@ func (r *c19run) exec(op SOp) {
 		for i := 0; i <= 3+op.I%4; i++ {
 			r.forge(who, -(i & 1), -((i >> 1) & 1), 1+op.X+i)
 		}
+	case "tlvonly":
+		// an authentic data message without text (an SMP abort): the receiver answers nothing, not even a heartbeat
+		w.SMPAbort(who)
+		s.Exec(SOp{K: "flush"})
 	case "cross":
 		// both sides send at the same moment, then everything is delivered: the two key rotations never coincide
 		for i := 0; i <= op.I%2; i++ {
@@ -193,7 +197,7 @@ func runC19(sc *CycleScript) *sim.Outcome {
 		for _, op := range sc.Cycle {
 			r.exec(op)
 			switch op.K {
-			case "pp", "burst", "cross":
+			case "pp", "burst", "cross", "tlvonly":
 				accepted = true
 			case "forge", "forgealt", "garbage", "rejake", "replayflood", "errreq", "fragflood":
 				rejected = true
@@ -231,6 +235,15 @@ func runC19(sc *CycleScript) *sim.Outcome {
 			}
 		}
 	}
+	// slow, steady growth (tens of bytes per cycle) stays under the allowance above for a long time; what gives it away
+	// is that it does not level off: the second interval is twice as long as the first and gains at least 1.5 times as much
+	for p := 0; p < 2; p++ {
+		d1 := size[2*n][p] - maxUpTo(p, n)
+		d2 := size[4*n][p] - size[2*n][p]
+		if d1 >= 96 && 2*d2 >= 3*d1 {
+			return o.Fail("C19/state-grows", "%s's retained state does not level off: at most %d bytes during the first %d cycles, %d after %d, %d after %d (cycle of %d ops: %s)", s.W.P[p].Name, maxUpTo(p, n), n, size[2*n][p], 2*n, size[4*n][p], 4*n, len(sc.Cycle), cycleDesc(sc.Cycle))
+		}
+	}
 	early, late := 0, 0
 	for i := 1; i <= n; i++ {
 		if out[i] > early {
@@ -264,7 +277,7 @@ func init() { reg("C19cycles", runC19); reg("C19patterns", runC19) }
 
 func TestProp_C19_Cycles(t *testing.T) {
 	defer sim.MarkCompleted("C19cycles", false)
-	kinds := []string{"pp", "pp", "pp", "cross", "cross", "burst", "burst", "forge", "forge", "forgealt", "forgealt", "errreq", "fragflood", "garbage", "rejake", "rekey", "rekey", "smprun", "age", "replayflood"}
+	kinds := []string{"pp", "pp", "pp", "tlvonly", "cross", "cross", "burst", "burst", "forge", "forge", "forgealt", "forgealt", "errreq", "fragflood", "garbage", "rejake", "rekey", "rekey", "smprun", "age", "replayflood"}
 	maxN := 10
 	if sim.Thorough() {
 		maxN = 32
@@ -321,6 +334,8 @@ func TestProp_C19_Patterns(t *testing.T) {
 		{{K: "age", W: 0}, {K: "age", W: 1}, {K: "rekey", W: 1}, {K: "burst", W: 1, I: 1}},
 		{{K: "rekey", W: 0}, {K: "burst", W: 1, I: 2}},
 		{{K: "rekey", W: 1}, {K: "burst", W: 0, I: 0}},
+		{{K: "rekey", W: 1}, {K: "tlvonly", W: 1}},
+		{{K: "rekey", W: 0}, {K: "tlvonly", W: 1}, {K: "tlvonly", W: 1}},
 		// the user stays silent after one message while the peer keeps asking for it again and re-keying
 		{{K: "errreq", W: 0}, {K: "age", W: 0}, {K: "age", W: 1}, {K: "rekey", W: 1}},
 		{{K: "errreq", W: 1}, {K: "age", W: 0}, {K: "age", W: 1}, {K: "rekey", W: 1}},
